@@ -551,3 +551,35 @@ reg(P("C02", "format", "c02",
                                  "stored twice and a complex number written as a list may be written again"],
       sig_fn=_fmt_sig, mutate=_fmt_mutate_c02, design_ref="DESIGN.md §6 C02",
       technique="TLC parses the real reference-mode streams (reference and class tables) and decides WireMatch / SameValue coinductively on the value graphs"))
+
+
+def _fmt_mutate_c05(rec):
+    if rec.get("ev") == "one" and rec.get("kind") == "stream" and rec["a"]["err"] == "none":
+        rec["b"]["rest"] = rec["b"]["rest"] + 1
+        return rec
+    return None
+
+
+def _c05_sig(reset, event):
+    r = reset
+    inp = r.get("input", {})
+    plan = inp.get("plan", [])
+    return {"leaf": r.get("leaf", ""), "mode": r.get("mode", ""), "chunk": plan[0] if plan else 0,
+            "truncated": inp.get("cut", -1) >= 0, "dest": inp.get("dest", "")}
+
+
+reg(P("C05", "format", "c05",
+      mc={"quick": [("DecoderBufMC", "DecoderBuf_fixed.cfg", 600), ("DecoderBufMC", "DecoderBuf_orig.cfg", 600, "violation")],
+          "thorough": [("DecoderBufMC", "DecoderBuf_fixed.cfg", 600), ("DecoderBufMC", "DecoderBuf_big.cfg", 1700),
+                       ("DecoderBufMC", "DecoderBuf_orig.cfg", 600, "violation")]},
+      traces=[("", "FormatTraceC05", "FormatTraceC05.cfg")],
+      level="model_checking",
+      rule="cases = real encoder outputs for a seeded walk over the C01 space (700 streams of up to 90 bytes in quick, "
+           "6000 of up to 400 in thorough) x {every two-way split up to byte 40, every fixed chunk size 1..7, four "
+           "seeded chunk sequences with zero-length reads, interface{} destination with chunk sizes 1-3} and, for "
+           "streams of up to 36 bytes, every truncation read byte by byte and in two pieces; distinct = (fragmentation "
+           "pattern, stream length); the contiguous decode of the same bytes is the reference",
+      assumptions=_FMT_ASSUME + ["buffer sizes below the library's default are ignored by NewDecoderFromReader, so fragmentation "
+                                 "is produced by the reader's chunking"],
+      sig_fn=_c05_sig, mutate=_fmt_mutate_c05, design_ref="DESIGN.md §6 C05",
+      technique="TLC model checking of DecoderBuf.tla (transcribed refill loop, all streams x chunk patterns) + TLC comparison of streamed and contiguous outcomes of the real decoder"))
